@@ -1,0 +1,36 @@
+//! Simulation seam, compiled only with `--cfg ast_grep_verif`.
+//!
+//! The language server runs all handlers on one task. A handler that needs a DashMap shard
+//! lock held by another *suspended* handler would block the only thread forever. Under a
+//! simulator (single-threaded executor) `try_*` reporting `Locked` is a proof of that
+//! self-deadlock, so it is turned into a recorded event plus a panic the simulator catches
+//! instead of a hung process. Without an installed observer this module does nothing.
+
+use dashmap::try_result::TryResult;
+use dashmap::DashMap;
+use std::sync::atomic::{AtomicBool, Ordering};
+use std::sync::Mutex;
+
+static ENABLED: AtomicBool = AtomicBool::new(false);
+static LAST_DEADLOCK: Mutex<Option<String>> = Mutex::new(None);
+
+/// Installed by the simulator before it polls the server.
+pub fn enable(on: bool) {
+  ENABLED.store(on, Ordering::SeqCst);
+  *LAST_DEADLOCK.lock().unwrap() = None;
+}
+
+/// The site of the self-deadlock detected since `enable(true)`, if any.
+pub fn take_deadlock() -> Option<String> {
+  LAST_DEADLOCK.lock().unwrap().take()
+}
+
+pub fn probe_lock<V>(map: &DashMap<String, V>, key: &str, site: &'static str) {
+  if !ENABLED.load(Ordering::SeqCst) {
+    return;
+  }
+  if let TryResult::Locked = map.try_get_mut(key) {
+    *LAST_DEADLOCK.lock().unwrap() = Some(site.to_string());
+    panic!("ast_grep_verif: DEADLOCK at {site}: document map shard is locked by a suspended handler");
+  }
+}
